@@ -77,23 +77,25 @@ type LifeEvent struct {
 
 // ExtSpec describes one entry of the extensions directory.
 type ExtSpec struct {
-	Name     string
-	IsDir    bool           // a sub-directory (must not be launched)
-	Body     func(x *Actor) // process body, run once per generation (x.Gen)
-	OnTerm   string         // "die" (default action), "exit0", "ignore"
-	StartErr error          // exec fails with this error
+	Name      string
+	IsDir     bool           // a sub-directory (must not be launched)
+	Body      func(x *Actor) // process body, run once per generation (x.Gen)
+	OnTerm    string         // "die" (default action), "exit0", "ignore"
+	StartErr  error          // exec fails with this error
+	FailFirst int            // only the first FailFirst launches fail (0 = all)
 }
 
 // Config describes one closed system.
 type Config struct {
-	TimeoutSec      int
-	Exts            []ExtSpec
-	Runtime         func(rt *Actor)
-	RuntimeOnTerm   string
-	RuntimeStartErr error
-	Env             map[string]string // process environment of the emulator for this scenario
-	Handler         string
-	root            string
+	TimeoutSec       int
+	Exts             []ExtSpec
+	Runtime          func(rt *Actor)
+	RuntimeOnTerm    string
+	RuntimeStartErr  error
+	RuntimeFailFirst int
+	Env              map[string]string // process environment of the emulator for this scenario
+	Handler          string
+	root             string
 }
 
 // World is the per-execution instance of the closed system.
@@ -225,14 +227,14 @@ func NewWorld(cfg *Config) *World {
 		}
 	}
 	if cfg.Runtime != nil || cfg.RuntimeStartErr != nil {
-		w.K.Register(BootstrapPath, &vexec.Program{StartErr: cfg.RuntimeStartErr, OnTerm: onTerm(cfg.RuntimeOnTerm), Main: w.procMain("runtime", cfg.Runtime)})
+		w.K.Register(BootstrapPath, &vexec.Program{StartErr: cfg.RuntimeStartErr, FailFirst: cfg.RuntimeFailFirst, OnTerm: onTerm(cfg.RuntimeOnTerm), Main: w.procMain("runtime", cfg.Runtime)})
 	}
 	for _, e := range cfg.Exts {
 		if e.IsDir {
 			continue
 		}
 		e := e
-		w.K.Register("/opt/extensions/"+e.Name, &vexec.Program{StartErr: e.StartErr, OnTerm: onTerm(e.OnTerm), Main: w.procMain("ext:"+e.Name, e.Body)})
+		w.K.Register("/opt/extensions/"+e.Name, &vexec.Program{StartErr: e.StartErr, FailFirst: e.FailFirst, OnTerm: onTerm(e.OnTerm), Main: w.procMain("ext:"+e.Name, e.Body)})
 	}
 	sched.Cur().Values["world"] = w
 	return w
